@@ -110,6 +110,8 @@ def _work(job: t.Tuple[int, str]) -> evid.Local:
     for label, idx, mut in interior_mutants(b):
         if shape == "mut+valid":
             data = mut + follow
+        elif shape == "valid+mut":
+            data = follow + mut
         elif shape == "valid+mut+valid":
             data = follow + mut + follow
         else:
@@ -133,8 +135,33 @@ def run(ctx: evid.Ctx) -> None:
     _X["bases"] = [m.pack(K.OPTS) for m in keep]
     _X["roles"] = ["server" if isinstance(m, (L.BindRequest, L.SearchRequest, L.ExtendedRequest)) else "client" for m in keep]
     _X["all_splits"] = thorough
-    jobs = [(i, sh) for i in range(len(keep)) for sh in (("mut+valid", "valid+mut+valid", "mut") if thorough else ("mut+valid",))]
+    jobs = [(i, sh) for i in range(len(keep)) for sh in (("mut+valid", "valid+mut", "valid+mut+valid", "mut") if thorough else ("mut+valid", "valid+mut"))]
     jobs += [(i, "well-formed") for i in range(len(keep))]
+    # many complete PDUs in ONE receive call (a page of search entries read from the socket at once)
+    for role in ("server", "client"):
+        one = FOLLOW[role].pack(K.OPTS)
+        for count in (2, 3, 100, 1023, 1024, 1025, 2048, 5000):
+            data = one * count
+            for chunks in ([data], [data[:7], data[7:]], [data[: len(data) // 2 + 3], data[len(data) // 2 + 3 :]]):
+                ctx.add("transitions", len(chunks))
+                v, outcome = deliver(role, data, chunks)
+                if v:
+                    ctx.violation(f"{v[0]}:{role}:many-pdus-per-call", v[1] + f" [{count} PDUs in {len(chunks)} chunk(s)]", {"role": role, "data": one.hex(), "repeat": count, "chunks": [len(c) for c in chunks]})
+            ctx.add("states")
+    # every protocolOp identifier a peer may send ([APPLICATION 0..31], both forms), known to the library or not
+    for role in ("server", "client"):
+        for num in range(0, 32):
+            for cons in (False, True):
+                for body in (b"", b"\x02\x01\x05", b"\x04\x00"):
+                    op = ber.enc_ident(ber.APPLICATION, cons, num) + ber.enc_len(len(body)) + body
+                    pdu = b"\x30" + ber.enc_len(3 + len(op)) + b"\x02\x01\x01" + op
+                    data = pdu + FOLLOW[role].pack(K.OPTS)
+                    for mname, chunks in modes(data, False):
+                        ctx.add("transitions", len(chunks))
+                        v, outcome = deliver(role, data, chunks)
+                        if v:
+                            ctx.violation(f"{v[0]}:{role}:unmodelled-operation", v[1] + f" [protocolOp APPLICATION {num} {'constructed' if cons else 'primitive'}; {mname}]", {"role": role, "data": data.hex(), "chunks": "bytewise" if mname == "bytewise" else [c.hex() for c in chunks]})
+                    ctx.add("states")
     # complete units with no content at all, in every length form, alone and followed by a valid PDU
     for hx in EMPTY_ENVELOPES:
         for role in ("server", "client"):
@@ -159,6 +186,14 @@ def run(ctx: evid.Ctx) -> None:
 
 
 def replay(case: t.Dict[str, t.Any], key: t.Optional[str] = None) -> t.Tuple[bool, str]:
+    if "repeat" in case:
+        data = bytes.fromhex(case["data"]) * case["repeat"]
+        chunks, p = [], 0
+        for ln in case["chunks"]:
+            chunks.append(data[p : p + ln])
+            p += ln
+        v, outcome = deliver(case["role"], data, chunks)
+        return (v is None), f"{case['repeat']} PDUs in {len(chunks)} chunk(s) -> {outcome}" + (f"\n  {v[0]}: {v[1]}" if v else "")
     data = bytes.fromhex(case["data"])
     chunks = [data[i : i + 1] for i in range(len(data))] if case["chunks"] == "bytewise" else [bytes.fromhex(c) for c in case["chunks"]]
     v, outcome = deliver(case["role"], data, chunks)
